@@ -780,7 +780,7 @@ def _get_rendering_items(state):
     elif state.audioPackFormat.type == TypeDefinition.HOA:
         return _get_RenderingItems_HOA(state)
     else:
-        raise NotImplementedError("Don't know how to produce rendering items for type {apf.type.name}".format(
+        raise AdmError("Don't know how to produce rendering items for type {apf.type.name}".format(
             apf=state.audioPackFormat,
         ))
 
